@@ -130,6 +130,10 @@ impl ExternalFileManager {
 pub trait ClientBaseStorage {
     spec fn fmap(&self) -> Map<Seq<u8>, Folder>;
     spec fn idx(&self) -> Option<SearchIndex>;
+    /// the in-memory folder summaries (`summaries(Internal)`)
+    spec fn summ(&self) -> Seq<Summary>;
+    /// the vaults persisted in the backend (vault files / folder rows), by folder id
+    spec fn stored(&self) -> Map<Seq<u8>, VaultV>;
     /// traits.rs:86: Err(NotAuthenticated) unless a user is signed in
     fn guard_authenticated(&self, _t: Internal) -> (r: ClResult<()>);
 }
@@ -139,7 +143,8 @@ pub trait ClientFolderStorage: ClientBaseStorage {
         ensures r@ == self.fmap();
     /// traits.rs:246
     fn folders_mut(&mut self) -> (r: &mut HashMap<VaultId, Folder>)
-        ensures r@ == old(self).fmap(), final(self).fmap() == final(r)@, final(self).idx() == old(self).idx();
+        ensures r@ == old(self).fmap(), final(self).fmap() == final(r)@, final(self).idx() == old(self).idx(),
+            final(self).summ() == old(self).summ(), final(self).stored() == old(self).stored();
     /// traits.rs:272
     fn current_folder(&self) -> (r: Option<Summary>);
     /// traits.rs:287 `self.summaries(Internal).iter().find(predicate)`: `Iterator::find` returns an
@@ -147,28 +152,117 @@ pub trait ClientFolderStorage: ClientBaseStorage {
     /// capture by shared reference only)
     fn find<F: Fn(&&Summary) -> bool>(&self, predicate: F) -> (r: Option<&Summary>)
         requires forall|s: &&Summary| #[trigger] predicate.requires((s,)),
-        ensures r matches Some(s) ==> predicate.ensures((&s,), true);
-}
-pub trait ClientAccountStorage: ClientFolderStorage {
-    /// traits.rs:1513 `fn search_index(&self) -> Option<&AccountSearch>`.  R9: lends the index
-    /// from `&mut self` (the real one hands out the `Arc<RwLock<SearchIndex>>` that is then
-    /// write-locked), so that what is written through the guard is the storage's new index.
-    fn search_index(&mut self) -> (r: Option<&mut AccountSearch>)
         ensures
-            final(self).fmap() == old(self).fmap(),
-            match r {
-                Some(a) => old(self).idx() == Some(a.search_index.inner) && final(self).idx() == Some(final(a).search_index.inner),
-                None => old(self).idx() is None && final(self).idx() is None,
-            };
-    /// traits.rs:1517
-    fn search_index_mut(&mut self) -> (r: Option<&mut AccountSearch>)
+            r matches Some(s) ==> predicate.ensures((&s,), true) && self.summ().contains(*s),
+            r is None ==> forall|i: int| 0 <= i < self.summ().len() ==> predicate.ensures((&&#[trigger] self.summ()[i],), false);
+    /// traits.rs:348 `create_folder_entry(vault, reset_events, creation_time, Internal)`:
+    /// `new_folder(&vault)` opens the folder persisted under `vault.id()` (file system:
+    /// `Folder::from_path(vault_path(id))` decodes the vault FILE; database: `Folder::new` loads
+    /// the folder rows) with a locked access point; with `reset_events` the event log is cleared
+    /// and re-filled with the records of `FolderReducer::split(vault)` (fold unit
+    /// [split_is_replay]; `EventRecord::encode_event` + the stream's decoder: C14 round trip);
+    /// then `folders_mut().insert(folder_id, folder)`.
+    fn create_folder_entry(&mut self, vault: Vault, reset_events: bool, creation_time: Option<&UtcDateTime>, _t: Internal) -> (r: ClResult<()>)
         ensures
-            final(self).fmap() == old(self).fmap(),
-            match r {
-                Some(a) => old(self).idx() == Some(a.search_index.inner) && final(self).idx() == Some(final(a).search_index.inner),
-                None => old(self).idx() is None && final(self).idx() is None,
-            };
-    /// traits.rs:1498: the file manager is a field of its own
-    fn external_file_manager_mut(&mut self) -> (r: Option<&mut ExternalFileManager>)
-        ensures final(self).fmap() == old(self).fmap(), final(self).idx() == old(self).idx();
+            final(self).idx() == old(self).idx(), final(self).summ() == old(self).summ(), final(self).stored() == old(self).stored(),
+            r is Ok ==> ({ let fid = vault_id(vault@); let f = final(self).fmap()[fid];
+                final(self).fmap() == old(self).fmap().insert(fid, f) && !f.ap().unlocked()
+                && (old(self).stored().contains_key(fid) ==> f.ap().vv() == old(self).stored()[fid])
+                && (reset_events ==> replay(evs(f.log().rows())) == vault_view(vault@)) });
 }
+/// traits.rs:175 `ClientVaultStorage`
+pub trait ClientVaultStorage: ClientBaseStorage {
+    /// traits.rs:178: persists the vault (file system: encodes it to the vault file; database:
+    /// upserts the folder row and replaces its secret rows)
+    fn write_vault(&mut self, vault: &Vault, _t: Internal) -> (r: ClResult<()>)
+        ensures
+            final(self).fmap() == old(self).fmap(), final(self).idx() == old(self).idx(), final(self).summ() == old(self).summ(),
+            r is Ok ==> final(self).stored() == old(self).stored().insert(vault_id(vault@), vault@);
+    /// traits.rs:212
+    fn summaries_mut(&mut self, _t: Internal) -> (r: &mut Vec<Summary>)
+        ensures r@ == old(self).summ(), final(self).summ() == final(r)@,
+            final(self).fmap() == old(self).fmap(), final(self).idx() == old(self).idx(), final(self).stored() == old(self).stored();
+    /// traits.rs:216 `summaries.push(summary); summaries.sort();`: the same summaries plus the new one
+    fn add_summary(&mut self, summary: Summary, token: Internal)
+        ensures
+            final(self).fmap() == old(self).fmap(), final(self).idx() == old(self).idx(), final(self).stored() == old(self).stored(),
+            final(self).summ().len() == old(self).summ().len() + 1,
+            forall|s: Summary| #[trigger] final(self).summ().contains(s) <==> (old(self).summ().contains(s) || s == summary);
+}
+// ---- sos_sync (crates/sync/src/types.rs) -----------------------------------------------------
+/// `sos_sync::Error` — opaque
+#[derive(Debug)]
+pub struct SyncError { pub _p: () }
+impl From<SyncError> for ClientError {
+    /// `#[from] sos_sync::Error`
+    #[verifier::external_body]
+    fn from(_e: SyncError) -> ClientError { ClientError::Other }
+}
+/// `IndexSet<TrackedFolderChange>` — what a UI is told about a merge; opaque
+#[verifier::external_body]
+pub struct TrackedFolderChanges { _p: () }
+/// types.rs:213 `TrackedChanges` — opaque (none of the properties talks about it)
+#[verifier::external_body]
+pub struct TrackedChanges { _p: () }
+impl TrackedChanges {
+    /// types.rs:245: decodes the patch and normalises the events; no effect on storage
+    #[verifier::external_body]
+    pub fn new_folder_records(value: &Patch<WriteEvent>) -> (r: core::result::Result<TrackedFolderChanges, SyncError>) { unimplemented!() }
+    /// types.rs:234
+    #[verifier::external_body]
+    pub fn add_tracked_folder_changes(&mut self, folder_id: &VaultId, changes: TrackedFolderChanges) { unimplemented!() }
+}
+/// types.rs:177 `MergeOutcome`: the two fields the extracted code touches (`tracked` is a Verus
+/// keyword: the field is spelled `tracked_changes` here and renamed (R15) in the extracted text)
+pub struct MergeOutcome { pub changes: u64, pub tracked_changes: TrackedChanges }
+impl<T> Patch<T> {
+    /// crates/core/src/events/patch.rs:37 `self.0.len()`
+    #[verifier::external_body]
+    pub fn len(&self) -> (r: usize)
+        ensures r == self.records().len(),
+    { unimplemented!() }
+}
+
+// ---- sos_vault::Vault accessors used by traits.rs --------------------------------------------
+impl Vault {
+    /// vault.rs `id()`: `&self.header.summary.id`
+    #[verifier::external_body]
+    pub fn id(&self) -> (r: &VaultId)
+        ensures r@ == vault_id(self@),
+    { unimplemented!() }
+    /// vault.rs:857 `&self.header.summary`
+    #[verifier::external_body]
+    pub fn summary(&self) -> (r: &Summary)
+        ensures r.sid() == vault_id(self@),
+    { unimplemented!() }
+}
+impl Clone for Vault {
+    /// `#[derive(Clone)]`: header and contents cloned
+    #[verifier::external_body]
+    fn clone(&self) -> (r: Vault) ensures r@ == self@, { unimplemented!() }
+}
+/// R7b: the bound `impl AsRef<[u8]> + Send` (vstd does not declare `AsRef`); std meaning at the
+/// types it is used with (`&[u8]`, `&Vec<u8>`: the bytes themselves)
+pub trait BytesRef {
+    spec fn bytes(&self) -> Seq<u8>;
+    fn as_ref(&self) -> (r: &[u8])
+        ensures r@ == self.bytes();
+}
+impl BytesRef for &[u8] {
+    open spec fn bytes(&self) -> Seq<u8> { (**self)@ }
+    fn as_ref(&self) -> (r: &[u8]) { *self }
+}
+impl BytesRef for &Vec<u8> {
+    open spec fn bytes(&self) -> Seq<u8> { (**self)@ }
+    fn as_ref(&self) -> (r: &[u8]) { self.as_slice() }
+}
+/// R12: `$v.iter_mut().find($p)` on a `Vec<Summary>`: a mutable reference to the first element on
+/// which `$p` answers true (`Iterator::find`), `None` if it answers false on all; what is
+/// written through the reference replaces that element
+#[verifier::external_body]
+pub fn vfind_mut<'a, F: Fn(&Summary) -> bool>(v: &'a mut Vec<Summary>, p: F) -> (r: Option<&'a mut Summary>)
+    requires forall|s: &Summary| #[trigger] p.requires((s,)),
+    ensures
+        r is None ==> final(v)@ == old(v)@ && forall|i: int| 0 <= i < old(v)@.len() ==> p.ensures((&#[trigger] old(v)@[i],), false),
+        r matches Some(e) ==> exists|i: int| 0 <= i < old(v)@.len() && #[trigger] old(v)@[i] == *e && p.ensures((&old(v)@[i],), true) && final(v)@ == old(v)@.update(i, *final(e)),
+{ unimplemented!() }
